@@ -3,8 +3,10 @@
 id=$1; name=$2; caught=$3; w=/tmp/mut/$id
 cd $w || exit 2
 export CARGO_NET_OFFLINE=true
+# verify the STORED patch: clean src/, apply it, test; reverse it, test
+git checkout -q -- src/ ; git apply MUTANT/patch.diff || { echo "stored patch does not apply"; exit 3; }
 with=$(cargo test --offline --no-fail-fast 2>&1 | grep "^test result" | head -1)
-git stash push -q -- src/ ; without=$(cargo test --offline --no-fail-fast 2>&1 | grep "^test result" | head -1); git stash pop -q
+git apply -R MUTANT/patch.diff; without=$(cargo test --offline --no-fail-fast 2>&1 | grep "^test result" | head -1)
 echo "with change:    $with"; echo "without change: $without"
 d=/verif/seeded/$name; mkdir -p $d
 cp MUTANT/patch.diff $d/patch.diff; cp MUTANT/seeded_demo.rs $d/seeded_demo.rs; cp MUTANT/notes.md $d/notes.md
